@@ -86,7 +86,7 @@ def mine(plan, issue: Issue):
 def run(ctx, plan: Plan):
     total = ctx.pick(*plan.n_cases)
     nops = ctx.pick(*plan.n_ops)
-    budget = ctx.pick(*getattr(plan, "budget_s", (75, 900)))
+    budget = ctx.pick(*getattr(plan, "budget_s", (75, 420)))
     for ci in ctx.my_share(total):
         if ctx.elapsed() > budget:
             ctx.note(f"time budget reached after case {ci}")
@@ -188,7 +188,7 @@ def run_case(ctx, plan, rng, ci, nops):
     names = list(plan.ops)
     weights = np.array([plan.ops[n] for n in names], dtype=float)
     nedit = 0
-    budget = ctx.pick(*getattr(plan, "budget_s", (75, 900)))
+    budget = ctx.pick(*getattr(plan, "budget_s", (75, 420)))
     for step in range(nops):
         if not names:
             break
